@@ -8,10 +8,10 @@ package reqsim
 
 import (
 	"bytes"
-	"math"
 	"encoding/json"
 	"errors"
 	"fmt"
+	"math"
 	"math/rand"
 	"os"
 	"os/exec"
@@ -68,14 +68,16 @@ type runner struct {
 var nameVariants = []struct {
 	pattern, name, id, ptype string
 	mount                    bool // a sub-mux is mounted at "users": the name enters it, matches nothing and falls back
+	submux                   bool // the pattern is registered on a sub-mux mounted at "mm"; listeners are added on the sub-mux after a first lookup
 }{
-	{"res", "test.res", "", "", false},
-	{"item.$id", "test.item.42", "42", "", false},
-	{"item.$id", "test.item.get", "get", "", false},
-	{"deep.$id.sub", "test.deep.call.sub", "call", "", false},
-	{"item.$id", "test.item.new", "new", "", false},
-	{"$type.$id.info", "test.users.5.info", "5", "users", true},
-	{"$type.>", "test.users.7.more", "", "users", true},
+	{"res", "test.res", "", "", false, false},
+	{"item.$id", "test.item.42", "42", "", false, false},
+	{"item.$id", "test.item.get", "get", "", false, false},
+	{"deep.$id.sub", "test.deep.call.sub", "call", "", false, false},
+	{"item.$id", "test.item.new", "new", "", false, false},
+	{"$type.$id.info", "test.users.5.info", "5", "users", true, false},
+	{"$type.>", "test.users.7.more", "", "users", true, false},
+	{"item.$id", "test.mm.item.42", "42", "", false, true},
 }
 
 var strPool = []string{"plain", `q"uote`, "uni-é-☃", "sp ace", `back\slash`, "<>&", ""}
@@ -209,12 +211,28 @@ func execute(sc Scenario, rng *rand.Rand) (rec, error) {
 			m.Handle("$id.details", res.Call("m", func(r res.CallRequest) { r.OK(nil) }))
 		})
 	}
-	if pv := core.Catch(func() { s.Handle(nv.pattern, opts...) }); pv != nil {
+	var submux *res.Mux
+	if nv.submux {
+		submux = res.NewMux("")
+		if pv := core.Catch(func() { submux.Handle(nv.pattern, opts...); s.Mount("mm", submux) }); pv != nil {
+			return nil, fmt.Errorf("registration panicked: %v", pv)
+		}
+	} else if pv := core.Catch(func() { s.Handle(nv.pattern, opts...) }); pv != nil {
 		return nil, fmt.Errorf("registration panicked: %v", pv)
+	}
+	s.Handle("probe", res.GetModel(func(r res.ModelRequest) { r.Model(map[string]int{"ok": 1}) }), res.Access(res.AccessGranted),
+		res.Call("m", func(r res.CallRequest) { r.OK(nil) }), res.Auth("m", func(r res.AuthRequest) { r.OK(nil) }))
+	addListener := s.AddListener
+	if submux != nil {
+		// a first lookup through the service - after everything else is registered - before the
+		// listeners are added on the mounted mux itself
+		s.GetHandler(nv.name)
+		s.Resource(nv.name)
+		addListener = submux.AddListener
 	}
 	for j := 1; j <= sc.Nl; j++ {
 		jj := j
-		s.AddListener(nv.pattern, func(ev *res.Event) {
+		addListener(nv.pattern, func(ev *res.Event) {
 			rn.mu.Lock()
 			rn.log = append(rn.log, []interface{}{"listen", ev.Name, rn.step, jj})
 			rn.mu.Unlock()
@@ -223,8 +241,6 @@ func execute(sc Scenario, rng *rand.Rand) (rec, error) {
 			}
 		})
 	}
-	s.Handle("probe", res.GetModel(func(r res.ModelRequest) { r.Model(map[string]int{"ok": 1}) }), res.Access(res.AccessGranted),
-		res.Call("m", func(r res.CallRequest) { r.OK(nil) }), res.Auth("m", func(r res.AuthRequest) { r.OK(nil) }))
 	conn := rconn.New(nil)
 	if sc.PubFail {
 		conn.FailPub = func(subj string) error {
